@@ -193,6 +193,11 @@ def gen_bytes(job):
                             w = v + dv
                             if (w.bit_length() + 7) // 8 == k:
                                 bodies.append(w.to_bytes(k, "big"))
+                            # ... and payloads whose payload||checksum (what Base58Check actually encodes) lies within
+                            # 2^33 of a power of 58 (digit-count boundary of the check-encoded integer)
+                            w = (58 ** (j + 6) >> 32) + dv
+                            if (w.bit_length() + 7) // 8 == k:
+                                bodies.append(w.to_bytes(k, "big"))
                         j += 1
                 if z == 0:
                     from vf.runner import lookalikes
@@ -245,6 +250,23 @@ def gen_strs(job):
             for q in (b"?amount=1", b" ", b"\n", b"\r\n", b'"', b"'", b">", b"\x00", b",", b"/"):
                 yield base + q
             yield b"bitcoin:" + base + b"?amount=0.1"
+    elif part == "special":
+        # (a) checksum-VALID strings whose text starts like another notation (what a "friendly" early test would sniff)
+        for prefix in (b"bc1", b"tb1", b"bcrt1", b"xpub", b"xprv", b"tpub", b"tprv", b"bitcoin", b"cashaddr", b"1", b"3", b"m", b"n", b"2", b"5",
+                       b"K", b"L", b"c", b"9", b"Ltc", b"ltc1", b"lnbc", b"npub", b"nsec"):
+            for n in (20, 30, 48):
+                raw = R.decode(prefix + b"2" * n)
+                if raw is None or len(raw) < 5:
+                    continue
+                cand = R.check_encode(raw[:-4])
+                if cand.startswith(prefix):
+                    yield cand
+        # (b) Unicode lookalikes: one character of a valid string replaced by a code point that NFKC / lower() / upper() /
+        # casefold() maps to it (UTF-8 encoded) - never an alphabet character
+        from vf.classes import lookalike_substitutions
+        for base in base_strings(job["seed"])[2:4]:
+            for _i, _cp, t in lookalike_substitutions(base, per_char=3):
+                yield t
     elif part == "edit2":
         base = base_strings(job["seed"])[job["idx"]]
         yield from edits.subst2(base, B58 + NONALPHA)
@@ -269,6 +291,7 @@ def jobs(tier, seed):
         for sh in range(nsh):
             js.append({"name": f"str/edit1/{i}/{sh}", "kind": "str", "part": "edit1", "idx": i,
                        "shard": [sh, nsh], "weight": 4})
+    js.append({"name": "str/special", "kind": "str", "part": "special", "weight": 3})
     if tier == "thorough":
         for i in (0, 1):
             js.append({"name": f"str/edit2/{i}", "kind": "str", "part": "edit2", "idx": i, "weight": 20})
